@@ -19,8 +19,8 @@ pub fn plan(prop: &str, tier: Tier) -> Plan {
     let (q, t) = match prop {
         "C05" | "C06" | "C08" | "C07" | "C09" | "C10" | "C13" | "C15" | "C14" => (200_000, 5_000_000),
         "C12" => (40_000, 1_000_000),
-        "C16" => (30_000, 600_000),
-        "C03" => (20_000, 400_000),
+        "C16" => (150_000, 3_000_000),
+        "C03" => (100_000, 1_500_000),
         "C04" => (80_000, 2_000_000),
         "C01" | "C02" => (40_000, 800_000),
         "C11" => (3_000, 60_000),
@@ -71,8 +71,12 @@ pub fn rule(prop: &str) -> String {
     }
 }
 
-pub fn systematic(_prop: &str, _tier: Tier, _seed: u64) -> Vec<Case> {
-    Vec::new()
+pub fn systematic(prop: &str, tier: Tier, seed: u64) -> Vec<Case> {
+    match prop {
+        "C04" => crate::hostile::systematic(tier == Tier::Thorough, seed),
+        "C03" => crate::profiles::systematic_framing(tier == Tier::Thorough),
+        _ => Vec::new(),
+    }
 }
 
 pub fn finish_case(g: Gen, profile: &'static str) -> Case {
@@ -148,6 +152,9 @@ pub fn generate(prop: &str, _tier: Tier, rng: &mut Rng, _idx: u64) -> Case {
             g.drain();
             finish_case(g, "inbound")
         }
+        "C03" => crate::profiles::framing(rng),
+        "C04" => crate::hostile::hostile_case(rng),
+        "C16" => crate::profiles::wake_base(rng),
         "C13" => crate::profiles::termination(rng),
         "C14" => crate::profiles::teardown(rng),
         "C15" => crate::profiles::cancel(rng),
@@ -166,7 +173,14 @@ pub fn probe_start(sc: &Scenario) -> Option<usize> {
     None
 }
 
-pub fn judge(prop: &str, sc: &Scenario, _aux: Option<&Scenario>) -> Judged {
+pub fn judge(prop: &str, sc: &Scenario, aux: Option<&Scenario>) -> Judged {
+    let settled;
+    let sc = if prop == "C03" {
+        settled = crate::profiles::settle_everywhere(sc);
+        &settled
+    } else {
+        sc
+    };
     let w: World = replay(sc);
     let a = Analysis::of(&w);
     let mut j = Judged::default();
@@ -289,6 +303,78 @@ pub fn judge(prop: &str, sc: &Scenario, _aux: Option<&Scenario>) -> Judged {
                 .collect();
             if refusals > 0 || kinds.iter().any(|k| *k == 1 || *k == 3 || *k == 4) {
                 j.nontrivial.push(fnv_of(&(kinds, refusals, a.inbound.first().map(|i| i.p.bytes_len))));
+            }
+        }
+        "C03" => {
+            let reference = match aux {
+                Some(r) => crate::profiles::settle_everywhere(r),
+                None => crate::profiles::whole_reads(sc),
+            };
+            let wr = replay(&reference);
+            let ar = Analysis::of(&wr);
+            j.steps += wr.steps_done;
+            j.polls += wr.polls;
+            drop(wr);
+            viols.extend(oracle::c03(&a, &ar));
+            // non-trivial: at least one read ended strictly inside a packet
+            let mut inside = 0usize;
+            let mut consumed = vec![0usize; a.conns.len()];
+            let bounds: Vec<Vec<usize>> = (0..a.conns.len()).map(|c| a.inbound.iter().filter(|i| i.p.conn == c).map(|i| i.p.end).collect()).collect();
+            let mut cuts: Vec<(usize, usize)> = Vec::new();
+            for e in &a.events {
+                if let crate::world::Ev::Read { conn, n, .. } = e {
+                    consumed[*conn] += n;
+                    if !bounds[*conn].contains(&consumed[*conn]) {
+                        inside += 1;
+                        let prev = bounds[*conn].iter().copied().filter(|b| *b < consumed[*conn]).max().unwrap_or(0);
+                        cuts.push((consumed[*conn] - prev, consumed[*conn] % 512));
+                    }
+                }
+            }
+            if inside > 0 {
+                let stream: Vec<usize> = a.inbound.iter().map(|i| i.p.bytes_len).collect();
+                j.nontrivial.push(fnv_of(&(stream, cuts)));
+            }
+        }
+        "C04" => {
+            viols.extend(oracle::c04(&a));
+            // non-trivial: hostile bytes were actually consumed, or a fault actually fired
+            let raw: Vec<(usize, usize)> = a.inbound.iter().filter(|i| i.p.pkt.is_none() && a.conns[i.p.conn].consumed > i.p.start).map(|i| (i.p.bytes_len, i.p.start)).collect();
+            let phase_run = a.conns.iter().any(|c| c.run_started.is_some());
+            let faults: Vec<(bool, bool)> = a.conns.iter().map(|c| (c.read_end_seen.is_some(), c.write_fault_seen.is_some())).collect();
+            if !raw.is_empty() || faults.iter().any(|f| f.0 || f.1) {
+                let first_bytes: Vec<u8> = a.inbound.iter().filter(|i| i.p.pkt.is_none()).map(|i| (i.p.bytes_len % 251) as u8).collect();
+                j.nontrivial.push(fnv_of(&(raw, phase_run, faults, first_bytes, a.wire.len())));
+            }
+        }
+        "C16" => {
+            viols.extend(oracle::c16_single(&a));
+            let base_obs = oracle::observable(&a);
+            let mut sweep_sc = sc.clone();
+            sweep_sc.config.sweep = true;
+            let mut variants: Vec<(&str, Scenario)> = vec![("sweep", sweep_sc)];
+            if let Some(sp) = aux {
+                variants.push(("spurious", sp.clone()));
+            }
+            let mut extra_polls = 0u64;
+            for (name, vs) in variants {
+                let wv = replay(&vs);
+                let av = Analysis::of(&wv);
+                j.steps += wv.steps_done;
+                j.polls += wv.polls;
+                extra_polls += wv.polls.saturating_sub(w.polls);
+                for (k, n) in &wv.fault_fired {
+                    *j.faults.entry(k.to_string()).or_insert(0) += n;
+                }
+                let ov = oracle::observable(&av);
+                if let Some(d) = oracle::first_difference(&base_obs, &ov) {
+                    viols.push(Violation { property: "C16", class: format!("C16/trace-differs/{name}/{d}"), message: format!("wake-only and {name} executions of the same scenario differ in {d}") });
+                } else if a.raw_wire != av.raw_wire {
+                    viols.push(Violation { property: "C16", class: format!("C16/trace-differs/{name}/wire-bytes"), message: format!("wake-only and {name} executions wrote different bytes") });
+                }
+            }
+            if extra_polls > 0 {
+                j.nontrivial.push(fnv_of(&(j.interleaving, extra_polls)));
             }
         }
         "C13" => {
